@@ -200,6 +200,10 @@ def s2_s3(ctx):
     ctx.require(len(rets) >= 1, 'C19.S3', 'the equal-weight optimiser returns', fn.site())
     for p_ in rets:
         v = p_.value
+        if any(val_ and c_[0] == 'cmp' and c_[1] in ('is', '==') and {c_[2], c_[3]} == {A('self', 'scale'), T.NONE} for c_, val_, _ in p_.conds):
+            # the scale is a number: what is answered when there is none (the pinned code fails on None * float) is outside the property
+            ctx.holds('C19.S3', 'a path for an optimiser built without any scale (scale is None) is outside the property', fn.site())
+            continue
         good = v is not None and v[0] == 'comp' and v[1] == 'dict' and len(v[3]) == 1
         if not good:
             ctx.violation('C19.S3', 'the equal-weight optimiser returns equal weights on every path', fn.site(),
